@@ -140,11 +140,12 @@ Definition pf_predict_y (p : polyfit) (x : Z) : option K :=
   | cs => let t := poly_eval cs (kofZ N x) 0 (k0 N) in if kltb N t (k0 N) then None else Some t
   end.
 
-Inductive loop_result := LDone (z : Z) | LOutOfFuel.
+(** [LOutOfFuel cd r]: the fuel ran out with the search at day [cd] and [r] still to clear *)
+Inductive loop_result := LDone (z : Z) | LOutOfFuel (cd : Z) (r : K).
 
 Fixpoint pf_predict_loop (fuel : nat) (p : polyfit) (d : K) (sd cd : Z) (r : K) : loop_result :=
   match fuel with
-  | O => LOutOfFuel
+  | O => LOutOfFuel cd r
   | S k =>
     if kltb N (k0 N) r then
       match pf_predict_y p cd with
@@ -155,13 +156,27 @@ Fixpoint pf_predict_loop (fuel : nat) (p : polyfit) (d : K) (sd cd : Z) (r : K) 
     else LDone cd
   end.
 
-Definition predict_fuel : nat := Z.to_nat 200000.
+(** the loop run block by block ([blocks] blocks of [block] steps), so that evaluating it costs
+    only the steps actually taken; equal to [pf_predict_loop (blocks * block)] (PredictorP.pf_predict_blocks_eq) *)
+Fixpoint pf_predict_blocks (blocks block : nat) (p : polyfit) (d : K) (sd cd : Z) (r : K) : loop_result :=
+  match blocks with
+  | O => LOutOfFuel cd r
+  | S k => match pf_predict_loop block p d sd cd r with
+           | LDone z => LDone z
+           | LOutOfFuel cd' r' => pf_predict_blocks k block p d sd cd' r'
+           end
+  end.
+
+Definition predict_block : nat := 4096.
+Definition predict_blocks : nat := 4096.
+(** 2^24 days: more than 45,000 years *)
+Definition predict_fuel : nat := predict_blocks * predict_block.
 
 (** predict; [Some None] never occurs: result is None (error), or a day, or out of fuel (= a hang) *)
 Definition pf_predict (p : polyfit) (d : K) (sd : Z) : option loop_result :=
   match sm_ys (pf_sm p) with
   | [] => None
-  | _ => Some (pf_predict_loop predict_fuel p d sd sd d)
+  | _ => Some (pf_predict_blocks predict_blocks predict_block p d sd sd d)
   end.
 
 Fixpoint pf_backfilled_loop (n : nat) (p : polyfit) (d : Z) (t : K) : option K :=
